@@ -78,11 +78,11 @@ class TapeRecorder(object):
             metadata[TapeRecorder.EXCEPTION_IN_OPERATION] = True
             raise
         finally:
-            # Recording was discarded
-            if self._active_recording is not None:
-                recording = self._active_recording
+            # Recording was discarded (another thread may discard it at any point, hold on to what is read once)
+            recording = self._active_recording
+            recording_parameters = self._active_recording_parameters
+            if recording is not None and recording_parameters is not None:
                 force_sample = self.is_recording_sample_forced
-                recording_parameters = self._active_recording_parameters
 
                 # Clear recording not to leave recording in active state if we have
                 # some exception raised in following code
@@ -107,21 +107,25 @@ class TapeRecorder(object):
         """
         Discards currently active recording process
         """
-        if self._active_recording is not None:
+        # Another thread may discard or finalize the recording meanwhile, hold on to what is read once
+        recording = self._active_recording
+        if recording is not None:
             _logger.info(
-                u'Recording with id {} was discarded'.format(self._active_recording.id))
-            self.tape_cassette.abort_recording(self._active_recording)
+                u'Recording with id {} was discarded'.format(recording.id))
+            self.tape_cassette.abort_recording(recording)
             self._reset_active_recording()
 
     def force_sample_recording(self):
         """
         Make sure currently active recording will be sampled (unless explicitly discarded or set to ignore enforcement)
         """
-        if self._active_recording is not None:
-            if self._active_recording_parameters.ignore_enforced_sampling:
+        recording = self._active_recording
+        recording_parameters = self._active_recording_parameters
+        if recording is not None and recording_parameters is not None:
+            if recording_parameters.ignore_enforced_sampling:
                 return
             _logger.info(
-                u'Recording with id {} sampling is enforced'.format(self._active_recording.id))
+                u'Recording with id {} sampling is enforced'.format(recording.id))
             self._force_sample = True
 
     @property
